@@ -27,6 +27,11 @@ var commands = map[string]func([]string){}
 
 func main() {
 	commands["steps"] = cmdSteps
+	commands["battles"] = cmdBattles
+	commands["rot"] = cmdRot
+	commands["configs"] = cmdConfigs
+	commands["battles-replay"] = cmdBattlesReplay
+	commands["steps-replay"] = cmdStepsReplay
 	if len(os.Args) < 2 {
 		fatal("usage: vharness <command> [flags]")
 	}
